@@ -38,8 +38,8 @@ def extra(prop, tier):
             "samples": [{"stream": "determinism", "case": cases[0], "obs": base[0]}] if cases else []}
 
 
-register("C07", lean_modules=["GtModel.Props.C07"], gen=gentables.gen_set_sites,
-         theorems=["GtModel.C07.set_sites_reviewed"], streams=["determinism"], extra=extra,
+register("C07", lean_modules=["GtModel.Props.C07"], gen=gentables.gen_c07_tables,
+         theorems=["GtModel.C07.set_sites_reviewed", "GtModel.C07.nondet_sites_reviewed"], streams=["determinism"], extra=extra,
          partial="only the absence of unreviewed hash-ordered iteration is a (table) theorem; allocation-order effects, repeated invocation and non-mutation of inputs are checked on the real code by the determinism stream across hash seeds",
          assumptions=["at most one combining mark (strike / under_plus) is active at a time while an edit is printed"],
          trusted=["ast walk of /repo/graphtage in harness/gentables.py (finds set-typed locals/attributes iterated by for / comprehension / join / list / yield from)"])
